@@ -42,6 +42,43 @@ def _h(v):
     return type(v).__name__
 
 
+IMPORT_TIME_OBJECTS: list = []       # virtual primitives created while no execution was in progress (module- or class-level state of
+                                     # the code under test): they are (re-)initialised under the scheduler of every execution that uses them
+
+
+def late_bindable(cls):
+    """A primitive created outside an execution (CUR is None) stays uninitialised; the first attribute access inside an execution
+    runs its constructor under that execution's scheduler.  reset_import_time_objects() empties such objects between executions, so
+    every execution sees them as a fresh process would."""
+    orig_init = cls.__init__
+
+    def __init__(self, *a, **k):
+        if CUR is None:
+            self.__dict__['_ctor'] = (a, k)
+            self.__dict__['_late'] = True
+            IMPORT_TIME_OBJECTS.append(self)
+            return
+        orig_init(self, *a, **k)
+
+    def __getattr__(self, name):
+        d = self.__dict__
+        if d.get('_late') and not d.get('_inited') and CUR is not None and not name.startswith('__'):
+            d['_inited'] = True
+            orig_init(self, *d['_ctor'][0], **d['_ctor'][1])
+            return getattr(self, name)
+        raise AttributeError(name)
+    cls.__init__ = __init__
+    cls.__getattr__ = __getattr__
+    return cls
+
+
+def reset_import_time_objects():
+    for o in IMPORT_TIME_OBJECTS:
+        keep = {'_ctor': o.__dict__['_ctor'], '_late': True}
+        o.__dict__.clear()
+        o.__dict__.update(keep)
+
+
 class Baton:
     """Binary semaphore on a raw lock (much cheaper than threading.Semaphore): acquire() parks, release() wakes."""
     __slots__ = ('l',)
@@ -371,6 +408,7 @@ class Sched:
 # ------------------------------------------------------------------------------------------------------------------
 # threading
 
+@late_bindable
 class Event:
     def __init__(self):
         self.s = CUR
@@ -426,6 +464,7 @@ class BrokenBarrierError(RuntimeError):
     pass
 
 
+@late_bindable
 class Barrier:
     def __init__(self, parties, action=None, timeout=None):
         self.s = CUR
@@ -494,6 +533,7 @@ class Barrier:
         self.s.op(self.lbl + '.reset', _true, act, True)
 
 
+@late_bindable
 class Lock:
     def __init__(self):
         self.s = CUR
@@ -549,6 +589,7 @@ class RLock(Lock):
     reentrant = True
 
 
+@late_bindable
 class Condition:
     def __init__(self, lock=None):
         self.s = CUR
@@ -617,6 +658,7 @@ class Condition:
     notifyAll = notify_all
 
 
+@late_bindable
 class Semaphore:
     def __init__(self, value=1):
         self.s = CUR
@@ -738,6 +780,7 @@ class Full(Exception):
     pass
 
 
+@late_bindable
 class Queue:
     def __init__(self, maxsize=0):
         self.s = CUR
@@ -840,6 +883,7 @@ AF_INET, SOCK_STREAM, SOL_SOCKET, SO_REUSEADDR, SHUT_RDWR, SHUT_RD, SHUT_WR, IPP
     2, 1, 1, 2, 2, 0, 1, 6, 1
 
 
+@late_bindable
 class VSocket:
     def __init__(self, family=AF_INET, type=SOCK_STREAM, proto=0, fileno=None):  # noqa: A002
         self.s = CUR
